@@ -68,7 +68,26 @@ func runC12(c *Ctx) {
 		// the map field indexed with the parameter, and the constant key prefix
 		ast.Inspect(fd.Body, func(n ast.Node) bool {
 			if ix, ok := n.(*ast.IndexExpr); ok {
-				if se, ok := ix.X.(*ast.SelectorExpr); ok {
+				x := ast.Unparen(ix.X)
+				// the map may be reached through an accessor method of the same type (lazy creation): v.m()[k]
+				if call, ok := x.(*ast.CallExpr); ok && len(call.Args) == 0 {
+					if fn := calleeOf(info, call); fn != nil {
+						for _, afd := range allFuncDecls(p) {
+							if info.Defs[afd.Name] != types.Object(fn) || afd.Recv == nil || recvTypeName(afd.Recv.List[0].Type) != ctxType {
+								continue
+							}
+							ast.Inspect(afd.Body, func(m ast.Node) bool {
+								if ret, ok := m.(*ast.ReturnStmt); ok && len(ret.Results) == 1 {
+									if fse, ok := ast.Unparen(ret.Results[0]).(*ast.SelectorExpr); ok {
+										x = fse
+									}
+								}
+								return true
+							})
+						}
+					}
+				}
+				if se, ok := x.(*ast.SelectorExpr); ok {
 					if _, isMap := info.TypeOf(se).Underlying().(*types.Map); isMap {
 						rm.field = se.Sel.Name
 						if be, ok := ix.Index.(*ast.BinaryExpr); ok && be.Op == token.ADD {
@@ -328,6 +347,23 @@ func runC12(c *Ctx) {
 			return true
 		})
 		records, passes := false, false
+		// the class registry: the (map field, key prefix) whose query method is asked about a class ID somewhere in the package
+		classKeys := map[string]bool{}
+		for _, b := range funcBodies(p) {
+			ast.Inspect(b.Body, func(n ast.Node) bool {
+				call, ok := n.(*ast.CallExpr)
+				if !ok || len(call.Args) != 1 || !strings.HasSuffix(types.ExprString(call.Args[0]), ".ID") {
+					return true
+				}
+				fn := calleeOf(info, call)
+				for _, m := range methods {
+					if m.query && types.Object(m.obj) == types.Object(fn) {
+						classKeys[m.field+"|"+m.pref] = true
+					}
+				}
+				return true
+			})
+		}
 		ast.Inspect(fd.Body, func(n ast.Node) bool {
 			switch n := n.(type) {
 			case *ast.RangeStmt:
@@ -337,7 +373,7 @@ func runC12(c *Ctx) {
 							if se, ok := call.Fun.(*ast.SelectorExpr); ok {
 								if id, ok := se.X.(*ast.Ident); ok && info.ObjectOf(id) == vObj && len(call.Args) == 1 && strings.HasSuffix(types.ExprString(call.Args[0]), ".ID") {
 									for _, m := range methods {
-										if !m.query && m.fd.Name.Name == se.Sel.Name && m.pref == "class_" {
+										if !m.query && m.fd.Name.Name == se.Sel.Name && classKeys[m.field+"|"+m.pref] {
 											records = true
 										}
 									}
